@@ -101,9 +101,11 @@ void UnicodePrinter::bvisit(const Complex &x)
         }
     }
     std::string str = s.str();
+    // the imaginary unit takes 4 bytes and the multiplication dot 3 bytes,
+    // each is one column wide
     std::size_t width = str.length() - 3;
     if (mul)
-        width--;
+        width -= 2;
     StringBox box(str, width);
     box_ = box;
 }
